@@ -1066,7 +1066,18 @@ func callBuiltin(caller *frame, fn *ssa.Builtin, args []value) value {
 		case *omap:
 			x.clear(i)
 		case []value:
-			panic(unsupported{"clear(slice)"})
+			var et types.Type
+			if sig, ok := fn.Type().(*types.Signature); ok && sig.Params().Len() == 1 {
+				if sl, ok := sig.Params().At(0).Type().Underlying().(*types.Slice); ok {
+					et = sl.Elem()
+				}
+			}
+			if et == nil {
+				panic(unsupported{"clear(slice) of unknown element type"})
+			}
+			for k := range x {
+				i.set(&x[k], zero(et))
+			}
 		}
 		return nil
 
